@@ -958,6 +958,8 @@ func (v *FnVC) analyzeLoops() {
 		}
 		return true
 	})
+	var unmatched []*LoopInfo
+	unmatchedLo := map[*LoopInfo]token.Pos{}
 	for _, li := range v.loops {
 		lo, hi := token.Pos(0), token.Pos(0)
 		for b := range li.Blocks {
@@ -991,7 +993,15 @@ func (v *FnVC) analyzeLoops() {
 		if best >= 0 {
 			li.Ordinal = best
 			li.Stmt = stmts[best]
+		} else {
+			unmatched = append(unmatched, li)
+			unmatchedLo[li] = lo
 		}
+	}
+	// loops formed by goto (no for / range statement): numbered after the for / range statements, in source order
+	sort.Slice(unmatched, func(a, b int) bool { return unmatchedLo[unmatched[a]] < unmatchedLo[unmatched[b]] })
+	for k, li := range unmatched {
+		li.Ordinal = len(stmts) + k
 	}
 }
 
